@@ -27,6 +27,9 @@
 
 #include "ares_private.h"
 #include "event/ares_event.h"
+#ifdef CARES_VERIF
+#  include "ares_verif.h"
+#endif
 #include <assert.h>
 
 void ares_destroy(ares_channel_t *channel)
@@ -59,10 +62,22 @@ void ares_destroy(ares_channel_t *channel)
 
   /* Wait for reinit thread to exit if there was one pending, can't be
    * holding a lock as the thread may take locks. */
+#ifdef CARES_VERIF
+  if (ares_verif_sync_cb != NULL) {
+    ares_verif_sync_cb(ARES_VERIF_SYNC_SHARED_READ, &channel->reinit_thread,
+                       channel->reinit_thread);
+  }
+#endif
   if (channel->reinit_thread != NULL) {
     void *rv;
     ares_thread_join(channel->reinit_thread, &rv);
     channel->reinit_thread = NULL;
+#ifdef CARES_VERIF
+    if (ares_verif_sync_cb != NULL) {
+      ares_verif_sync_cb(ARES_VERIF_SYNC_SHARED_WRITE, &channel->reinit_thread,
+                         NULL);
+    }
+#endif
   }
 
   /* Lock because callbacks will be triggered, and any system-generated
